@@ -23,8 +23,8 @@ from .. import roles
 from ..model import AnalysisError, dotted, src
 from . import c04
 
-TECHNIQUE = "sibling-agreement of class sets, ordering rule in the rewrite loop, writes_to vs executor write signatures, invalidation rule for tracked register values (static analysis)"
-ENGINES = ["model", "flow", "instrs"]
+TECHNIQUE = "sibling-agreement of class sets, ordering rule in the rewrite loop, writes_to vs executor write signatures, invalidation rule for tracked register values; abstract interpretation of small functions over an enumerated finite domain by the checker's own AST interpreter (static analysis)"
+ENGINES = ["model", "flow", "instrs", "circuit"]
 EXPLANATION = (
     "Over sdk/transpile.py, lang/instr/core.py and backend/executor.py: the isinstance set used to retarget jumps in the NV "
     "transpiler, the set scanned by the REIDS transpiler, the set dispatched to Executor._handle_branch_instr and the set of core "
